@@ -12,8 +12,13 @@ B_StatusProtocol(r) == LET c == r.case  a == StatusAnswer(c.configured, c.prefer
                        r.got.some = a.some /\ (a.some => r.got.protocol = a.protocol)
 B_LocalizedFromTable(r) == LET c == r.case  a == Localize(TablesOf(ToSet(c.tables)), c.requested, c.default, c.key) IN
                            r.got.from = a.from /\ r.got.text = a.text
+B_AuthIdentity(r) == LET c == r.case  a == AuthAnswer(c.kind, c.claimed, c.fixed) IN r.got.ok /\ r.got.who = a.who /\ r.got.props = a.props
+\* got.lists: what each of the c.calls calls returned
+B_DiscoveryList(r) == LET c == r.case IN Len(r.got.lists) = c.calls /\ \A k \in 1..c.calls : r.got.lists[k] = DiscoverAnswer(c.targets, k)
+ClauseOf(r) == CASE r.kind = "status" -> "B_StatusProtocol" [] r.kind = "auth" -> "B_AuthIdentity" [] r.kind = "discover" -> "B_DiscoveryList" [] OTHER -> "B_LocalizedFromTable"
 Judge == n >= 1 => LET r == Recs[n]
-                       ok == IF r.kind = "status" THEN B_StatusProtocol(r) ELSE B_LocalizedFromTable(r) IN
-                   ok \/ PrintT(<<"FAIL", ToJson([line |-> n, clauses |-> {IF r.kind = "status" THEN "B_StatusProtocol" ELSE "B_LocalizedFromTable"}])>>)
+                       ok == CASE r.kind = "status" -> B_StatusProtocol(r) [] r.kind = "auth" -> B_AuthIdentity(r)
+                               [] r.kind = "discover" -> B_DiscoveryList(r) [] OTHER -> B_LocalizedFromTable(r) IN
+                   ok \/ PrintT(<<"FAIL", ToJson([line |-> n, clauses |-> {ClauseOf(r)}])>>)
 AllConsumed == TLCGet("stats").diameter = Len(Recs) + 1 \/ PrintT(<<"NOTCONSUMED", ToJson([d |-> TLCGet("stats").diameter])>>)
 =============================================================================
